@@ -233,6 +233,18 @@ fn boundary(out: &mut String, id: &str, tag: &str, res: &str, ev_from: &mut usiz
     interpose::RECORD.store(was, SeqCst);
 }
 
+struct InDrop<F: FnOnce()>(Option<F>);
+impl<F: FnOnce()> Drop for InDrop<F> { fn drop(&mut self) { if let Some(f) = self.0.take() { f() } } }
+fn in_context<F: FnOnce()>(kind: u8, f: F) {
+    struct SendIt<F>(F);
+    unsafe impl<F> Send for SendIt<F> {}
+    match kind {
+        1 => { let _ = catch_unwind(AssertUnwindSafe(|| { let _g = InDrop(Some(f)); panic!("the earlier panic"); })); }
+        2 => { let w = SendIt(f); std::thread::scope(|s| { s.spawn(move || { let w = w; (w.0)() }).join().unwrap(); }); }
+        _ => f(),
+    }
+}
+
 pub fn run_history(line: &str, with_diff: bool) -> String {
     let mut it = line.split_whitespace();
     let id = it.next().unwrap();
@@ -250,11 +262,18 @@ pub fn run_history(line: &str, with_diff: bool) -> String {
     for (li, ops) in lifetimes.iter().enumerate() {
         // MAPOVER as first op: before this lifetime begins, somebody else maps code over the page of the last released trampoline
         let ops: Vec<String> = if ops.first().map(|s| s.as_str()) == Some("MAPOVER") { let okm = map_over_last_released(); util::emit(&format!("{id} L{li} MAPOVER {okm}\n")); ops[1..].to_vec() } else { ops.clone() };
+        // UNWIND as first op: the whole lifetime runs inside a destructor while the thread is unwinding from an earlier panic
+        // (a fixture that uses an injector in its tear-down after a failed assertion); nothing the library does may depend on that
+        // THREAD as first op: the whole lifetime runs on a freshly spawned thread (joined before the boundary is observed)
+        let unwinding = ops.first().map(|s| s.as_str()) == Some("UNWIND");
+        let threaded = ops.first().map(|s| s.as_str()) == Some("THREAD");
+        let ops: Vec<String> = if unwinding || threaded { ops[1..].to_vec() } else { ops };
         let ops = &ops;
         interpose::RECORD.store(true, SeqCst);
         let mut body_out = String::new();
         let (wtx, wrx) = std::sync::mpsc::channel();
-        let r = catch_unwind(AssertUnwindSafe(|| {
+        let mut r: std::thread::Result<()> = Ok(());
+        in_context(if unwinding { 1 } else if threaded { 2 } else { 0 }, || { r = catch_unwind(AssertUnwindSafe(|| {
             let mut inj = InjectorPP::new();
             // a thread that is ALREADY waiting for the guard while this lifetime runs (and possibly unwinds)
             std::thread::spawn(move || { let i = InjectorPP::new(); drop(i); let _ = wtx.send(()); });
@@ -264,7 +283,8 @@ pub fn run_history(line: &str, with_diff: bool) -> String {
                 boundary(&mut body_out, id, &format!("L{li} OP{oi}"), &res, &mut ev_from, &syms, &snap, with_diff);
             }
             drop(inj);
-        }));
+        })); });
+        if unwinding { PANICS.fetch_sub(1, SeqCst); }          // the earlier panic is the harness's own
         interpose::RECORD.store(false, SeqCst);
         let res = match &r { Ok(()) => "normal".to_string(), Err(e) => { let m = util::panic_msg(e); let c = util::classify(&m);
             if c == "count" { let nums: Vec<String> = m.split(|ch: char| !ch.is_ascii_digit()).filter(|x| !x.is_empty()).map(|x| x.to_string()).collect(); format!("panic:count:{}", nums.join(":")) } else { format!("panic:{c}") } } };
